@@ -1,7 +1,586 @@
-//! C20 — not implemented yet.
-use vmon::report::Args;
+//! C20 — inexact scalar indices (zone map, bloom filter, n-gram) never drop a matching row.
+//!
+//! (i) dataset level: scan with the index == scan without == reference, in every index state
+//! (fresh, appended + optimize_indices, deletes, updates, compaction); (ii) index level: the index
+//! object is opened through `DatasetIndexInternalExt::open_scalar_index` and `ScalarIndex::search`
+//! must return a superset (AtMost / Exact) of the brute-force matching row addresses of the
+//! fragments it covers.
 
-pub fn run(_args: &Args) -> i32 {
-    eprintln!("HARNESS-ERROR C20 not implemented");
-    2
+use crate::c16::{coercion_sig, judge, quirk_sig, reference, Expected, RefOutcome};
+use crate::c19::{lit_to_cell, IdxTable};
+use crate::core::*;
+use datafusion::scalar::ScalarValue;
+use lance::index::DatasetIndexInternalExt;
+use lance_encoding::version::LanceFileVersion;
+use lance_index::metrics::NoOpMetricsCollector;
+use lance_index::scalar::{AnyQuery, BloomFilterQuery, SargableQuery, ScalarIndexParams, SearchResult, TextQuery};
+use lance_index::{DatasetIndexExt, IndexType};
+use serde_json::json;
+use std::collections::{BTreeMap, BTreeSet};
+use std::ops::Bound;
+use std::sync::atomic::{AtomicU64, Ordering as AO};
+use std::sync::Arc;
+use vmon::prng::{fnv_str, Rng};
+use vmon::report::{Args, Report};
+use vmon::table::IdAlloc;
+
+#[derive(Clone, Copy, Debug, PartialEq)]
+enum Kind {
+    ZoneMap,
+    Bloom,
+    NGram,
+}
+
+impl Kind {
+    fn name(&self) -> &'static str {
+        match self {
+            Kind::ZoneMap => "zonemap",
+            Kind::Bloom => "bloomfilter",
+            Kind::NGram => "ngram",
+        }
+    }
+}
+
+fn lit_to_scalar(ty: &ColTy, l: &Lit) -> Option<ScalarValue> {
+    let c = if l.is_null() { return None } else { lit_to_cell_checked(ty, l)? };
+    Some(match (ty, c) {
+        (ColTy::I8, Cell::Int(v)) => ScalarValue::Int8(Some(v as i8)),
+        (ColTy::I16, Cell::Int(v)) => ScalarValue::Int16(Some(v as i16)),
+        (ColTy::I32, Cell::Int(v)) => ScalarValue::Int32(Some(v as i32)),
+        (ColTy::I64, Cell::Int(v)) => ScalarValue::Int64(Some(v as i64)),
+        (ColTy::U8, Cell::Int(v)) => ScalarValue::UInt8(Some(v as u8)),
+        (ColTy::U16, Cell::Int(v)) => ScalarValue::UInt16(Some(v as u16)),
+        (ColTy::U32, Cell::Int(v)) => ScalarValue::UInt32(Some(v as u32)),
+        (ColTy::U64, Cell::Int(v)) => ScalarValue::UInt64(Some(v as u64)),
+        (ColTy::Date32, Cell::Int(v)) => ScalarValue::Date32(Some(v as i32)),
+        (ColTy::TsMicro, Cell::Int(v)) => ScalarValue::TimestampMicrosecond(Some(v as i64), None),
+        (ColTy::F32, Cell::Float(v)) => ScalarValue::Float32(Some(v as f32)),
+        (ColTy::F64, Cell::Float(v)) => ScalarValue::Float64(Some(v)),
+        (ColTy::Utf8, Cell::Str(s)) => ScalarValue::Utf8(Some(s)),
+        (ColTy::LargeUtf8, Cell::Str(s)) => ScalarValue::LargeUtf8(Some(s)),
+        (ColTy::Bool, Cell::Bool(b)) => ScalarValue::Boolean(Some(b)),
+        _ => return None,
+    })
+}
+
+/// literal as a cell of the column type, None when it is not representable (out of range, float for int)
+fn lit_to_cell_checked(ty: &ColTy, l: &Lit) -> Option<Cell> {
+    match (class_of(ty), l) {
+        (Class::Int, Lit::Int(i)) => {
+            let (lo, hi) = int_bounds(ty);
+            if *i < lo || *i > hi {
+                return None;
+            }
+        }
+        (Class::Int, Lit::Float(_)) => return None,
+        _ => {}
+    }
+    Some(lit_to_cell(ty, l))
+}
+
+/// The index query object of a leaf predicate on column 1 (`x`), if the index kind accepts it.
+fn leaf_query(kind: Kind, ty: &ColTy, p: &Pred) -> Option<Box<dyn AnyQuery>> {
+    match (kind, p) {
+        (Kind::NGram, Pred::Contains { col: 1, s }) => Some(Box::new(TextQuery::StringContains(s.clone()))),
+        (Kind::NGram, _) => None,
+        (_, Pred::IsNull { col: 1, neg: false }) => Some(match kind {
+            Kind::Bloom => Box::new(BloomFilterQuery::IsNull()) as Box<dyn AnyQuery>,
+            _ => Box::new(SargableQuery::IsNull()),
+        }),
+        (_, Pred::Cmp { col: 1, op: CmpOp::Eq, lit, .. }) => {
+            let v = lit_to_scalar(ty, lit)?;
+            Some(match kind {
+                Kind::Bloom => Box::new(BloomFilterQuery::Equals(v)) as Box<dyn AnyQuery>,
+                _ => Box::new(SargableQuery::Equals(v)),
+            })
+        }
+        (_, Pred::In { col: 1, lits, neg: false }) => {
+            let vs: Option<Vec<ScalarValue>> = lits.iter().map(|l| lit_to_scalar(ty, l)).collect();
+            let vs = vs?;
+            Some(match kind {
+                Kind::Bloom => Box::new(BloomFilterQuery::IsIn(vs)) as Box<dyn AnyQuery>,
+                _ => Box::new(SargableQuery::IsIn(vs)),
+            })
+        }
+        (Kind::ZoneMap, Pred::Cmp { col: 1, op, lit, .. }) => {
+            let v = lit_to_scalar(ty, lit)?;
+            let q = match op {
+                CmpOp::Lt => SargableQuery::Range(Bound::Unbounded, Bound::Excluded(v)),
+                CmpOp::Le => SargableQuery::Range(Bound::Unbounded, Bound::Included(v)),
+                CmpOp::Gt => SargableQuery::Range(Bound::Excluded(v), Bound::Unbounded),
+                CmpOp::Ge => SargableQuery::Range(Bound::Included(v), Bound::Unbounded),
+                _ => return None,
+            };
+            Some(Box::new(q))
+        }
+        (Kind::ZoneMap, Pred::Between { col: 1, lo, hi, neg: false }) => {
+            let a = lit_to_scalar(ty, lo)?;
+            let b = lit_to_scalar(ty, hi)?;
+            Some(Box::new(SargableQuery::Range(Bound::Included(a), Bound::Included(b))))
+        }
+        _ => None,
+    }
+}
+
+/// Emulation of the n-gram index tokenizer (lower case, ASCII folding, all 3-grams whose characters
+/// are ASCII alphanumeric): does the query string produce at least one trigram?
+fn has_alnum_trigram(s: &str) -> bool {
+    let folded: Vec<char> = s
+        .chars()
+        .map(|c| match c {
+            'é' | 'è' | 'ê' => 'e',
+            'á' | 'à' | 'â' => 'a',
+            c => c.to_ascii_lowercase(),
+        })
+        .collect();
+    folded.windows(3).any(|w| w.iter().all(|c| c.is_ascii_alphanumeric()))
+}
+
+fn contains_leaves(p: &Pred, positive: bool, out: &mut Vec<(String, bool)>) {
+    match p {
+        Pred::Contains { s, .. } => out.push((s.clone(), positive)),
+        Pred::Not(q) => contains_leaves(q, !positive, out),
+        Pred::Is(q, k) => match k {
+            IsKind::True | IsKind::NotFalse => contains_leaves(q, positive, out),
+            _ => contains_leaves(q, !positive, out),
+        },
+        Pred::And(a, b) | Pred::Or(a, b) => {
+            contains_leaves(a, positive, out);
+            contains_leaves(b, positive, out);
+        }
+        _ => {}
+    }
+}
+
+pub const AT_LEAST_SIG: &str = "index-at-least-result-read-as-exact-unguaranteed-rows-never-rechecked";
+pub const PARTIAL_ZONE_SIG: &str = "zone-index-rows-between-full-zone-and-fragment-end-fall-into-next-fragments-zone";
+pub const STABLE_ZONE_SIG: &str = "zone-index-with-stable-row-ids-returns-row-addresses";
+pub const NGRAM_NO_TRIGRAM_SIG: &str = "ngram-query-of-3-or-more-bytes-without-alphanumeric-trigram-returns-no-rows";
+
+struct Ctx<'a> {
+    kind: Kind,
+    stable: bool,
+    zone: u64,
+    addr: &'a BTreeMap<i64, u64>,
+    frag_rows: &'a BTreeMap<u32, u64>,
+}
+
+/// Narrow class of a deviation of an inexact index (dataset level or index level); None = unknown.
+fn classify(cx: &Ctx, pred: &Pred, extra: &[i64], missing: &[i64]) -> Option<&'static str> {
+    if !extra.is_empty() || missing.is_empty() {
+        return None;
+    }
+    if cx.kind == Kind::NGram {
+        let mut cl = vec![];
+        contains_leaves(pred, true, &mut cl);
+        // a positive contains() of >= 3 bytes that yields no trigram: the index answers "no rows"
+        if cl.iter().any(|(s, pos)| *pos && s.len() >= 3 && !has_alnum_trigram(s)) {
+            return Some(NGRAM_NO_TRIGRAM_SIG);
+        }
+        // AtLeast results: short needle (AtLeast(empty)) or NOT(contains) (complement of an AtMost)
+        if cl.iter().any(|(s, pos)| !*pos || s.len() < 3) {
+            return Some(AT_LEAST_SIG);
+        }
+        return None;
+    }
+    if cx.stable {
+        return Some(STABLE_ZONE_SIG);
+    }
+    // every missing row lies behind the last full zone of its fragment, or in a later fragment than
+    // one whose row count is not a multiple of the zone size (the zones after such a boundary hold
+    // the statistics of rows shifted against the offsets they claim to cover)
+    let in_tail = |id: &i64| -> bool {
+        let Some(a) = cx.addr.get(id) else { return false };
+        let (frag, off) = ((*a >> 32) as u32, *a & 0xffff_ffff);
+        let Some(n) = cx.frag_rows.get(&frag) else { return false };
+        (n % cx.zone != 0 && off >= n - n % cx.zone) || cx.frag_rows.iter().any(|(f, m)| *f < frag && m % cx.zone != 0)
+    };
+    if missing.iter().all(in_tail) {
+        return Some(PARTIAL_ZONE_SIG);
+    }
+    // NOT over an AtMost result is an AtLeast result
+    let mut neg = vec![];
+    pred.negated_leaves(true, &mut neg);
+    if neg.iter().any(|(_, c)| *c == 1) {
+        return Some(AT_LEAST_SIG);
+    }
+    None
+}
+
+pub fn run(args: &Args) -> i32 {
+    let selftest = args.extra.contains_key("selftest");
+    let report = Report::new(
+        args,
+        "exploration",
+        "case = (column type, inexact index kind with random parameters, history of index states, predicate); dataset level: scan with index == without == reference; \
+         index level: ScalarIndex::search of every index delta must cover all brute-force matching row addresses of the fragments it covers. \
+         distinct = hash(index kind, column type, state kind, predicate shape); non-trivial = the plan shows a scalar index node (dataset level) or the index accepted the query (index level), and the predicate selects neither 0 nor all rows",
+        (75, 900),
+    )
+    .with_min_nontrivial(20);
+    let threads = n_threads();
+    let max_cases: u64 = args.tier.pick(3000, 300_000);
+    let preds_per_state = args.tier.pick(12, 30);
+    let max_rows = args.tier.pick(300, 1500);
+    let next = AtomicU64::new(0);
+    let only_case: Option<u64> = args.extra.get("case").and_then(|s| s.parse().ok());
+    let st_fired = AtomicU64::new(0);
+    let st_total = AtomicU64::new(0);
+
+    run_threads(threads, |_t, rt| loop {
+        let mut case = next.fetch_add(1, AO::Relaxed);
+        if let Some(c) = only_case {
+            if case > 0 {
+                break;
+            }
+            case = c;
+        }
+        if case >= max_cases || !report.time_left() {
+            break;
+        }
+        let mut rng = Rng::for_case(args.seed, case);
+        rt.block_on(async {
+            let kind = *rng.pick(&[Kind::ZoneMap, Kind::ZoneMap, Kind::Bloom, Kind::NGram]);
+            let xty = match kind {
+                Kind::NGram => rng.pick(&[ColTy::Utf8, ColTy::LargeUtf8]).clone(),
+                _ => rng.pick(&query_pool()).clone(),
+            };
+            let yty = rng.pick(&query_pool()).clone();
+            let spec = TableSpec {
+                cols: vec![
+                    ColSpec {
+                        name: "x".into(),
+                        ty: xty.clone(),
+                        nullable: rng.chance(3, 4),
+                        null_eighths: *rng.pick(&[0u8, 1, 2, 4, 7]),
+                        small_domain: if kind == Kind::NGram { rng.chance(1, 3) } else { rng.chance(1, 2) },
+                    },
+                    ColSpec { name: "y".into(), ty: yty.clone(), nullable: rng.chance(1, 2), null_eighths: *rng.pick(&[0u8, 1, 4]), small_domain: true },
+                ],
+            };
+            let version = *rng.pick(&[LanceFileVersion::V2_0, LanceFileVersion::V2_1]);
+            let nfrag = rng.urange(1, 3);
+            let total = rng.urange(20, max_rows);
+            let mut ids = IdAlloc::new(0);
+            let mut model = Model::new(&spec);
+            let mut frags = vec![];
+            for _ in 0..nfrag {
+                let b = spec.batch(&mut rng, &ids.take((total / nfrag).max(1)));
+                model.insert_batch(&b);
+                frags.push(b);
+            }
+            // sorted data makes zone maps selective: sometimes sort x within a fragment
+            let stable = rng.chance(1, 4);
+            let ds = match write_table(&unique_uri("c20"), &frags, version, None, None, stable).await {
+                Ok(d) => d,
+                Err(e) => {
+                    report.harness_error(&format!("case {case}: write: {e}"));
+                    return;
+                }
+            };
+            let mut t = IdxTable { ds, model, spec: spec.clone(), ids, version, history: vec![], stable_row_ids: stable, updated_ids: BTreeSet::new(), old_versions: vec![] };
+            let mut zone_size = 1u64;
+            let (index_type, params, pdesc) = match kind {
+                Kind::ZoneMap => {
+                    let r = *rng.pick(&[1u64, 2, 3, 7, 16, 64, 1000, 8192]);
+                    zone_size = r;
+                    (IndexType::ZoneMap, ScalarIndexParams { index_type: "zonemap".into(), params: Some(json!({"rows_per_zone": r}).to_string()) }, format!("rows_per_zone={r}"))
+                }
+                Kind::Bloom => {
+                    let n = *rng.pick(&[8u64, 64, 1024, 8192]);
+                    zone_size = n;
+                    let p = *rng.pick(&[0.3f64, 0.1, 0.01, 0.00057]);
+                    (
+                        IndexType::BloomFilter,
+                        ScalarIndexParams { index_type: "bloomfilter".into(), params: Some(json!({"number_of_items": n, "probability": p}).to_string()) },
+                        format!("number_of_items={n},probability={p}"),
+                    )
+                }
+                Kind::NGram => (IndexType::NGram, ScalarIndexParams { index_type: "ngram".into(), params: None }, String::new()),
+            };
+            match guarded(t.ds.create_index(&["x"], index_type, Some("x_idx".into()), &params, true)).await {
+                Ok(()) => {}
+                Err(e) => {
+                    report.rejected();
+                    report.count("index_creation_rejected", 1);
+                    if report.counter("index_creation_rejected") <= 3 {
+                        report.sample(json!({"index_rejected": format!("{} on {:?} ({pdesc})", kind.name(), xty), "error": format!("{e:?}").chars().take(200).collect::<String>()}));
+                    }
+                    return;
+                }
+            }
+            report.count("tables", 1);
+            report.count(&format!("tables_{}", kind.name()), 1);
+            let table_desc = format!("x:{:?}{} [{} {}] y:{:?} v={} stable_row_ids={}", xty, if spec.cols[0].nullable { "?" } else { "" }, kind.name(), pdesc, yty, storage_version_name(version), stable);
+            let nstates = rng.urange(1, 4);
+            for state in 0..nstates {
+                if !report.time_left() {
+                    break;
+                }
+                if state > 0 {
+                    let op = rng.below(6);
+                    let n_app = rng.urange(3, 80);
+                    let r = match op {
+                        0 => t.append(&mut rng, n_app).await,
+                        1 => t.delete_some(&mut rng).await,
+                        2 => t.update_some(&mut rng, 1).await,
+                        3 => {
+                            // ordinary compaction only (deferred remap is C19's subject)
+                            let before = t.history.len();
+                            let r = t.compact(&mut rng).await;
+                            if t.history.len() > before && t.history.last().map(|h| h.starts_with("compact(defer=true")).unwrap_or(false) {
+                                // keep the class out of this check: stop the case here
+                                return;
+                            }
+                            r
+                        }
+                        4 => t.optimize(&mut rng).await,
+                        _ => {
+                            let a = t.append(&mut rng, n_app).await;
+                            if a.is_ok() {
+                                t.optimize(&mut rng).await
+                            } else {
+                                a
+                            }
+                        }
+                    };
+                    if let Err(e) = r {
+                        report.count("history_op_failed", 1);
+                        report.harness_error(&format!("case {case}: history op failed: {e}; table {table_desc}; history {:?}", t.history));
+                        return;
+                    }
+                }
+                let state_kind = t.history.last().map(|s| s.split('(').next().unwrap().to_string()).unwrap_or_else(|| "fresh".into());
+                report.count(&format!("state_{state_kind}"), 1);
+                let m = &t.model;
+                let df = match DfRef::new(m.to_batch()) {
+                    Ok(d) => d,
+                    Err(e) => {
+                        report.harness_error(&format!("case {case}: datafusion reference: {e}"));
+                        return;
+                    }
+                };
+                // id -> row address, fragment coverage of the index deltas
+                let addr: BTreeMap<i64, u64> = match run_scan(&t.ds, &Query { projection: Some(vec!["id".into()]), ..Default::default() }, &Knobs { with_row_addr: true, ..Default::default() }).await {
+                    Ok(out) => {
+                        let (ki, ka) = (out.col("id"), out.col("_rowaddr"));
+                        match (ki, ka) {
+                            (Some(ki), Some(ka)) => out.rows.iter().filter_map(|r| Some((r[ki].as_i64()?, r[ka].as_i64()? as u64))).collect(),
+                            _ => BTreeMap::new(),
+                        }
+                    }
+                    Err(_) => BTreeMap::new(),
+                };
+                let metas = t.ds.load_indices_by_name("x_idx").await.unwrap_or_default();
+                let frag_rows: BTreeMap<u32, u64> =
+                    t.ds.get_fragments().iter().map(|f| (f.id() as u32, f.metadata().physical_rows.unwrap_or(0) as u64)).collect();
+                let cx = Ctx { kind, stable: t.stable_row_ids, zone: zone_size.max(1), addr: &addr, frag_rows: &frag_rows };
+                let gen = PredGen::new(
+                    m,
+                    GenCfg {
+                        cols: vec![0, 1, 2],
+                        focus: vec![1],
+                        max_depth: 2,
+                        hostile_literals: true,
+                        allow_colcmp: false,
+                        contains_cols: if kind == Kind::NGram { vec![1] } else { vec![] },
+                    },
+                );
+                for pi in 0..preds_per_state {
+                    if !report.time_left() {
+                        break;
+                    }
+                    let pred = if rng.chance(3, 5) { gen.leaf(&mut rng) } else { gen.gen_top(&mut rng) };
+                    let sql = pred.sql(&m.cols);
+                    let ids_exp = match reference(&pred, &sql, m, &df).await {
+                        RefOutcome::Ok { ids, float_disagree, .. } => {
+                            if float_disagree {
+                                report.count("float_special_decided_by_datafusion", 1);
+                            }
+                            ids
+                        }
+                        RefOutcome::HarnessError(e) => {
+                            report.harness_error(&format!("case {case} state {state} p{pi}: {e}; table {table_desc}"));
+                            continue;
+                        }
+                    };
+                    let selective = !ids_exp.is_empty() && ids_exp.len() < m.len();
+                    let witness = |what: &str, detail: serde_json::Value| {
+                        json!({"seed": args.seed, "case": case, "state": state, "pred_index": pi, "table": table_desc, "history": t.history, "filter": sql, "run": what, "rows": m.len(), "detail": detail})
+                    };
+                    // ---- (ii) index level
+                    let mut index_level = false;
+                    if !t.stable_row_ids && !addr.is_empty() {
+                        if let Some(query) = leaf_query(kind, &xty, &pred) {
+                            for meta in &metas {
+                                let idx = match guarded(t.ds.open_scalar_index("x", &meta.uuid.to_string(), &NoOpMetricsCollector)).await {
+                                    Ok(i) => i,
+                                    Err(e) => {
+                                        report.count("index_open_failed", 1);
+                                        if report.counter("index_open_failed") <= 2 {
+                                            report.sample(json!({"index_open_failed": format!("{e:?}").chars().take(200).collect::<String>(), "table": table_desc}));
+                                        }
+                                        continue;
+                                    }
+                                };
+                                let res = match guarded(idx.search(query.as_ref(), &NoOpMetricsCollector)).await {
+                                    Ok(r) => r,
+                                    Err(ScanErr::Rejected(_)) => {
+                                        report.count("index_level_query_rejected", 1);
+                                        continue;
+                                    }
+                                    Err(e) => {
+                                        if !selftest {
+                                            report.violation(
+                                                &format!("{}-index-search-failed", kind.name()),
+                                                &format!("{e:?}").chars().take(300).collect::<String>(),
+                                                witness("index-level", json!({"error": format!("{e:?}")})),
+                                            );
+                                        }
+                                        continue;
+                                    }
+                                };
+                                index_level = true;
+                                report.count("index_level_searches", 1);
+                                let covered = |a: u64| meta.fragment_bitmap.as_ref().map(|b| b.contains((a >> 32) as u32)).unwrap_or(true);
+                                let matching: Vec<(i64, u64)> = ids_exp.iter().filter_map(|id| addr.get(id).map(|a| (*id, *a))).filter(|(_, a)| covered(*a)).collect();
+                                let (label, set) = match &res {
+                                    SearchResult::Exact(s) => ("exact", s),
+                                    SearchResult::AtMost(s) => ("at_most", s),
+                                    SearchResult::AtLeast(s) => ("at_least", s),
+                                };
+                                report.count(&format!("index_level_result_{label}"), 1);
+                                report.count("rows_compared", matching.len() as u64);
+                                let mut missed: Vec<i64> = match &res {
+                                    SearchResult::Exact(_) | SearchResult::AtMost(_) => matching.iter().filter(|(_, a)| !set.contains(*a)).map(|(id, _)| *id).collect(),
+                                    SearchResult::AtLeast(_) => vec![],
+                                };
+                                if selftest {
+                                    if selective && !matching.is_empty() {
+                                        // corrupt the observation: pretend the index result is empty
+                                        st_total.fetch_add(1, AO::Relaxed);
+                                        missed = matching.iter().map(|(id, _)| *id).collect();
+                                        if !missed.is_empty() {
+                                            st_fired.fetch_add(1, AO::Relaxed);
+                                        }
+                                    }
+                                    continue;
+                                }
+                                if !missed.is_empty() {
+                                    let rows: Vec<String> = missed.iter().take(5).map(|i| vmon::table::render_row(&m.rows[i])).collect();
+                                    let sig = classify(&cx, &pred, &[], &missed).map(|s| s.to_string()).unwrap_or_else(|| format!("{}-index-search-misses-matching-rows", kind.name()));
+                                    report.violation(
+                                        &sig,
+                                        &format!("{} search ({label}) of delta {} misses {} of {} matching rows of its fragments", kind.name(), meta.uuid, missed.len(), matching.len()),
+                                        witness("index-level", json!({"missed_ids": trunc(&missed, 20), "missed_rows": rows, "fragments": meta.fragment_bitmap.as_ref().map(|b| b.iter().collect::<Vec<_>>())})),
+                                    );
+                                }
+                                if let SearchResult::AtLeast(s) | SearchResult::Exact(s) = &res {
+                                    // rows claimed to match for sure must match
+                                    let live: BTreeMap<u64, i64> = addr.iter().map(|(i, a)| (*a, *i)).collect();
+                                    let wrong: Vec<i64> = live.iter().filter(|(a, i)| covered(**a) && s.contains(**a) && !ids_exp.contains(i)).map(|(_, i)| *i).take(20).collect();
+                                    if !wrong.is_empty() {
+                                        report.violation(
+                                            &format!("{}-index-search-claims-non-matching-rows", kind.name()),
+                                            &format!("{label} result contains {} live rows that do not match", wrong.len()),
+                                            witness("index-level", json!({"wrong_ids": wrong})),
+                                        );
+                                    }
+                                }
+                            }
+                        }
+                    }
+                    // ---- (i) dataset level
+                    let exp = Expected { set: ids_exp.clone(), seq: None, limit: None, offset: None };
+                    let q = Query { filter: Some(sql.clone()), ..Default::default() };
+                    let k_idx = Knobs { use_scalar_index: Some(true), ..Default::default() };
+                    let k_no = Knobs { use_scalar_index: Some(false), ..Default::default() };
+                    let plan = explain(&t.ds, &q, &k_idx).await;
+                    let uses_index = plan.as_ref().map(|p| p.contains("ScalarIndexQuery") || p.contains("MaterializeIndex")).unwrap_or(false);
+                    let mut executed = false;
+                    let mut noindex_conforms = false;
+                    for (label, knobs) in [("noindex", &k_no), ("index", &k_idx)] {
+                        match run_scan(&t.ds, &q, knobs).await {
+                            Ok(out) => {
+                                executed = true;
+                                report.count("scans", 1);
+                                report.count("rows_compared", out.rows.len() as u64);
+                                if selftest {
+                                    continue;
+                                }
+                                let verdict = judge(&out, &exp, m);
+                                if label == "noindex" && verdict.is_none() {
+                                    noindex_conforms = true;
+                                }
+                                if let Some(v) = verdict {
+                                    let got: BTreeSet<i64> = out.ids().into_iter().collect();
+                                    let (extra, missing) = set_diff(&got, &ids_exp);
+                                    let shared_q = if noindex_conforms { None } else { quirk_sig(&got, &ids_exp, &pred, &sql, m, &df).await };
+                                    let shared_c = if noindex_conforms || shared_q.is_some() { None } else { coercion_sig(&got, &ids_exp, &pred, &sql, m, &df).await };
+                                    let sig = if let Some(qs) = shared_q {
+                                        qs.to_string()
+                                    } else if let Some(cs) = shared_c {
+                                        cs.to_string()
+                                    } else if label == "noindex" {
+                                        format!("noindex-{}", v.sig)
+                                    } else if let Some(c) = classify(&cx, &pred, &extra, &missing) {
+                                        c.to_string()
+                                    } else if t.stable_row_ids && !t.updated_ids.is_empty() && extra.iter().chain(missing.iter()).all(|i| t.updated_ids.contains(i)) {
+                                        // same root cause as C19: optimize_indices keeps the old entry of an updated row
+                                        "index-stale-entry-after-update-with-stable-row-ids".to_string()
+                                    } else {
+                                        format!("{}-{}", kind.name(), v.sig)
+                                    };
+                                    let show = |ids: &[i64]| -> Vec<String> { ids.iter().take(5).map(|i| m.rows.get(i).map(vmon::table::render_row).unwrap_or_default()).collect() };
+                                    report.violation(
+                                        &sig,
+                                        &format!("{label}: {} (plan uses index: {uses_index})", v.what),
+                                        witness(label, json!({"detail": v.detail, "extra_rows": show(&extra), "missing_rows": show(&missing),
+                                            "plan": plan.as_ref().map(|p| p.chars().take(500).collect::<String>()).unwrap_or_default()})),
+                                    );
+                                }
+                            }
+                            Err(ScanErr::Rejected(_)) => {
+                                if label == "index" {
+                                    report.rejected();
+                                }
+                            }
+                            Err(ScanErr::Failed(e)) => {
+                                if !selftest {
+                                    let sig = if crate::c19::is_rowids_panic(&e) && t.stable_row_ids && label != "noindex" {
+                                        crate::c19::ROWIDS_PANIC_SIG.to_string()
+                                    } else {
+                                        format!("{}-{}-scan-failed", kind.name(), label)
+                                    };
+                                    report.violation(&sig, &format!("{label}: {}", e.chars().take(300).collect::<String>()), witness(label, json!({"error": e})));
+                                }
+                            }
+                            Err(ScanErr::Timeout) => report.inconclusive(&format!("case {case}: scan timed out")),
+                        }
+                    }
+                    let nontrivial = selective && ((executed && uses_index) || index_level);
+                    if executed && uses_index {
+                        report.count("plans_using_index", 1);
+                    }
+                    if selective {
+                        report.count("selective_predicates", 1);
+                    }
+                    let shape = format!("{}|{:?}|{}|{}", kind.name(), xty, state_kind, pred.shape(&m.cols));
+                    report.case(if nontrivial { Some(fnv_str(&shape)) } else { None });
+                    let pick = rng.chance(1, 60);
+                    if nontrivial && pick && report.want_sample() {
+                        report.sample(json!({"table": table_desc, "history": t.history, "filter": sql, "matching": ids_exp.len(), "rows": m.len(), "index_level_checked": index_level,
+                            "plan": plan.as_ref().map(|p| p.lines().take(3).collect::<Vec<_>>().join(" / ")).unwrap_or_default()}));
+                    }
+                }
+            }
+        });
+    });
+    if selftest {
+        let (f, t) = (st_fired.load(AO::Relaxed), st_total.load(AO::Relaxed));
+        println!("SELFTEST C20 oracle fired on {f} of {t} corrupted observations");
+        return if t > 0 && f == t { 0 } else { 2 };
+    }
+    let _ = Arc::new(0);
+    report.finish()
 }
